@@ -1467,10 +1467,10 @@ def correspond(ctx):
     special_grid(ctx)
     primitive_grid(ctx)
     big = ctx.tier != "quick"
-    logsumexp_stream(ctx, 3000 if big else 300)
-    einsum_stream(ctx, 4000 if big else 400)
+    logsumexp_stream(ctx, 12000 if big else 300)
+    einsum_stream(ctx, 12000 if big else 400)
     if big:
-        for _ in range(6):
+        for _ in range(16):
             agreement_grid(ctx)
             special_grid(ctx)
     kf_stream(ctx)
